@@ -365,7 +365,7 @@ def desugar_for(node):
     try:
         loop = node['arms'][0]['body']
         inner = loop['body']['stmts'][0]['e']
-        some_arm = [a for a in inner['arms'] if a['pat'].get('k') in ('PTupleStruct', 'PStruct')][0]
+        some_arm = [a for a in inner['arms'] if a['pat'].get('k') in ('PTupleStruct', 'PStruct') and res_path(a['pat']['res']).endswith('Some')][0]
         pat = some_arm['pat']
         if pat['k'] == 'PTupleStruct':
             pat = pat['pats'][0]
